@@ -330,6 +330,11 @@ class Solver:
             primal_step_norm = float(np.linalg.norm(next_iterate.x - iterate.x))
             dual_step_norm = float(np.linalg.norm(next_iterate.y - iterate.y))
 
+            if accept:
+                penalty_result = self.penalty_strategy.update(iterate, next_iterate)
+                next_rho = penalty_result.next_rho
+                accept = penalty_result.accept
+
             self.callbacks(CallbackType.ComputedStep, iterate, next_iterate, accept)
 
             if display_iterate:
@@ -355,11 +360,6 @@ class Solver:
                 state["rcond"] = lambda _, step_result: step_result.rcond
 
                 logger.info(display.row(state))
-
-            if accept:
-                penalty_result = self.penalty_strategy.update(iterate, next_iterate)
-                next_rho = penalty_result.next_rho
-                accept = penalty_result.accept
 
             if accept:
 
